@@ -169,3 +169,113 @@ func VH_C08_resize() {
 	s := vShard(n)
 	vC08Resize(s/2+1, s%2 == 1)
 }
+
+// ---- modifiers print and re-parse to themselves; locators compose ---------------------------
+
+//verif:harness prop=C08 quick=5 thorough=5 merge=concrete timeout=1200
+//verif:bounds Modifier.String / AsModifier for the five forms with symbolic offsets in [-99,99] (quick) / [-9999,9999] (thorough), every sign and digit count
+func VH_C08_modifier_text() {
+	form := vShard(5)
+	lim := 99 + 9900*vTier()
+	mod, _, _ := vGenModifier("m", form, lim)
+	s := mod.String()
+	vCover("printed")
+	back, err := AsModifier(s)
+	vAssert("reparse-accepts", err == nil)
+	if err != nil {
+		return
+	}
+	h0, t0 := mod.Apply(100000, 200000)
+	h1, t1 := back.Apply(100000, 200000)
+	vAssert("same-modifier", vAnd(h0 == h1, t0 == t1))
+	vAssert("prints-identically", back.String() == s)
+	switch mod.(type) {
+	case Head:
+		_, ok := back.(Head)
+		vAssert("same-form", ok)
+	case Tail:
+		_, ok := back.(Tail)
+		vAssert("same-form", ok)
+	case HeadTail:
+		_, ok := back.(HeadTail)
+		vAssert("same-form", ok)
+	case HeadHead:
+		_, ok := back.(HeadHead)
+		vAssert("same-form", ok)
+	case TailTail:
+		_, ok := back.(TailTail)
+		vAssert("same-form", ok)
+	}
+	vObserve("len", len(s))
+}
+
+//verif:harness prop=C08 quick=4 thorough=8 merge=concrete timeout=1200
+//verif:bounds locator composition: sequence of 9 residues with two gene features (range and complemented range, symbolic coordinates) and a cds; locator strings gene | gene@M | @M | 3..6 | 3..6@M | complement(3..6)@M | 4 | M for M in {^, $, ^+1..$-1, ^-1..^+2, $-2..$}: AsLocator(s)(seq) equals the regions of the specifier, each resized by M, in table order
+func VH_C08_locators() {
+	const L = 9
+	mods := []string{"^", "$", "^+1..$-1", "^-1..^+2", "$-2..$"}
+	sh := vShard(4 + 4*vTier())
+	mi := sh % len(mods)
+	if sh >= 4 {
+		mi = (sh + 1) % len(mods)
+	}
+	mtxt := mods[mi]
+	mod, err := AsModifier(mtxt)
+	vAssert("modifier-parses", err == nil)
+	s1 := vIntIn("s1", 0, L-2)
+	e1 := vIntIn("e1", 2, L)
+	vAssume(s1+1 < e1)
+	s2 := vIntIn("s2", 0, L-2)
+	e2 := vIntIn("e2", 2, L)
+	vAssume(s2+1 < e2)
+	ff := FeatureSlice{}
+	ff = ff.Insert(Feature{"gene", Range(s1, e1), Props{[]string{"tag", "a"}}})
+	ff = ff.Insert(Feature{"gene", Range(s2, e2).Complement(), Props{[]string{"tag", "b"}}})
+	ff = ff.Insert(Feature{"cds", Range(0, 1), Props{[]string{"tag", "c"}}})
+	seq := New(nil, ff, make([]byte, L))
+	same := func(label string, got Regions, want []Region) {
+		vAssert(label+"-count", len(got) == len(want))
+		if len(got) != len(want) {
+			return
+		}
+		for i := range want {
+			vAssert(label+"-region", vAnd(got[i].Head() == want[i].Head(), got[i].Tail() == want[i].Tail()))
+		}
+	}
+	run := func(s string) Regions {
+		loc, err := AsLocator(s)
+		vAssert("locator-parses", err == nil)
+		if err != nil {
+			return nil
+		}
+		return loc(seq)
+	}
+	vCover("located")
+	// selector: matching features in table order
+	var genes []Region
+	for _, f := range seq.Features() {
+		if f.Key == "gene" {
+			genes = append(genes, f.Loc.Region())
+		}
+	}
+	same("selector", run("gene"), genes)
+	var resized []Region
+	for _, r := range genes {
+		resized = append(resized, r.Resize(mod))
+	}
+	same("selector@M", run("gene@"+mtxt), resized)
+	// bare @M: every feature resized
+	var all []Region
+	for _, f := range seq.Features() {
+		all = append(all, f.Loc.Region().Resize(mod))
+	}
+	same("@M", run("@"+mtxt), all)
+	// bare range / point / complement
+	same("range", run("3..6"), []Region{Segment{2, 6}})
+	same("range@M", run("3..6@"+mtxt), []Region{Segment{2, 6}.Resize(mod)})
+	same("complement@M", run("complement(3..6)@"+mtxt), []Region{Segment{6, 2}.Resize(mod)})
+	same("point", run("4"), []Region{Segment{3, 4}})
+	// bare modifier: the whole sequence resized
+	same("M", run(mtxt), []Region{Segment{0, L}.Resize(mod)})
+	vObserve("ngenes", len(genes))
+}
